@@ -202,9 +202,9 @@ def run_table(names, alphabet, counters, digests, violations, known, fp, pairs=T
         from xdeps import Table
         import re as _re
         UNIQ[0] += 1
-        letters = sorted({x[0] for x in names})
-        for pat in ("(?:%s).*|zz%d" % ("|".join(letters).lower(), UNIQ[0]), "%s|zq%d::0" % (names[0].lower(), UNIQ[0]),
-                    "%s|zq%d::-1" % (names[-1].upper(), UNIQ[0])):
+        letters = sorted({_re.escape(x[0]) for x in names if x}) or ["zz"]
+        for pat in ("(?:%s).*|zz%d" % ("|".join(letters).lower(), UNIQ[0]), "%s|zq%d::0" % (_re.escape(names[0].lower()), UNIQ[0]),
+                    "%s|zq%d::-1" % (_re.escape(names[-1].upper()), UNIQ[0])):
             other = Table({"name": np.array(names, dtype=object), "x": np.arange(n, dtype=float)}, regex_flags=0)
             try:
                 other.rows.indices[pat]
@@ -299,7 +299,7 @@ def run_shard(spec):
                 if len(violations) >= 12:
                     break
     counters["exhaustive"] = True
-    pool = ["mq%d" % i for i in range(6)] + ["drift", "dq", "MQ1", "marker"]
+    pool = ["mq%d" % i for i in range(6)] + ["drift", "dq", "MQ1", "marker", "", "1", "q.1"]
     for i in range(spec["random_tables"]):
         n = rng.randrange(5, 200)
         names = [rng.choice(pool) for _ in range(n)]
